@@ -83,6 +83,10 @@ class Conditional(Scenario):
             if rng.random() < 0.3:
                 events.append(["write", rng.choice([0, 1, 200_000, 999_999, 1_000_000, 1_500_000, 3_600_000_000]), rng.choice([size, size, size + 1, max(0, size - 1), 50])])
                 continue
+            if rng.random() < 0.07:
+                # the server's clock is stepped back (NTP correction, VM restore): Last-Modified values now lie in its future
+                events.append(["clock_back", rng.choice([1_000_000, 5_000_000, 3_600_000_000])])
+                continue
             method = rng.choice(["GET", "GET", "GET", "HEAD", "POST"])
             mode = rng.choice(["cond", "cond", "range", "range", "plain"])
             ev = {"client": rng.randrange(2), "method": method, "mode": mode, "abort": rng.choice([None, None, None, 0, 1, 2]), "wait_us": rng.choice([0, 0, 500_000, 2_000_000])}
@@ -95,6 +99,7 @@ class Conditional(Scenario):
                 ev["range"] = gen_range(rng, size)
                 ev["if_range"] = rng.choice(["none", "none", "none", "etag_mine", "etag_other", "date_mine", "date_before", "date_after"])
                 ev["ranges"] = rng.choice(["on", "on", "on", "on", "off", "no_length"])
+                ev["file_pos"] = rng.choice([0, 0, 0, 1, size // 2, size, size + 5])
             events.append(["req", ev])
         return {
             "size": size,
@@ -186,6 +191,12 @@ class Conditional(Scenario):
                 wrote = True
                 out.fault("write_within_same_second" if gap < 1_000_000 else "clock_advance")
                 tr.add("write", version, size, lm.isoformat())
+                continue
+            if ev[0] == "clock_back":
+                back = ev[1] if isinstance(ev[1], int) and 0 <= ev[1] <= 10**11 else 0
+                now = clk[0] = now - dt.timedelta(microseconds=back)
+                out.fault("clock_jump_backwards")
+                tr.add("clock_back", back)
                 continue
             spec = ev[1] if isinstance(ev[1], dict) else {}
             now = clk[0] = now + dt.timedelta(microseconds=int(spec.get("wait_us", 0) or 0))
@@ -289,6 +300,11 @@ class Conditional(Scenario):
                 conditional_after_write = conditional_after_write or wrote
             # ---- the application -------------------------------------------------
             body, passthrough, simfile = self.make_body(case, content)
+            moved = 0
+            if simfile is not None and case.get("body_kind") == "file_seekable" and mode == "range" and isinstance(spec.get("file_pos"), int) and spec["file_pos"] > 0:
+                # the open file was used before (hashed, or served once already): a seekable body is addressed absolutely
+                moved = simfile._seek(spec["file_pos"])
+                out.probe("seekable_file_not_at_start")
             resp = Response(body, direct_passthrough=passthrough, mimetype="application/octet-stream")
             if cur is not None:
                 resp.set_etag(cur[0], weak=cur[1])
@@ -342,7 +358,8 @@ class Conditional(Scenario):
                 for o in exp_range:
                     if o == "200" and status == 200:
                         ok = True
-                        self.check_body(out, pre, case, "200", produced, content, finished, method, headers, None, where)
+                        if not moved:  # (a whole-body answer from a file that is not at its start is the application's own doing)
+                            self.check_body(out, pre, case, "200", produced, content, finished, method, headers, None, where)
                     elif o == "416" and status == 416:
                         ok = True
                     elif isinstance(o, tuple) and status == 206:
